@@ -315,6 +315,14 @@ pub fn run_c16(out: &mut Out, tier: &str, seed: u64) {
     let mut rng = Rng::new(seed);
     let n = if tier == "thorough" { 20000 } else { 2500 };
     let cfg = Cfg { max_depth: 2, max_width: 3, dup_free: true, long_strings: false, ..Cfg::default() };
+    // independent lifetimes: values parsed (whole input, embedded, streamed, raw-number mode) from a
+    // buffer that is overwritten and freed before they are read
+    for _ in 0..(n / 10) {
+        let g = gen::gen_doc(&mut rng, &cfg);
+        let doc = gen::render_doc(&g, &mut rng, &cfg);
+        out.count("independent-lifetime docs");
+        crate::p_dom::dom_drivers(out, &doc, false);
+    }
     for _ in 0..n {
         let len = rng.range(3, 30);
         let mut hrng = rng.fork();
